@@ -34,3 +34,6 @@ CFG = {'harness': 'det',
  'parallel_model': 16}
 
 CFG["level_extra"] = ('Since the combinator layer (coq/Codec/Winnow.v, ChronoWinnow.v): the winnow 0.6.1 combinators actually used (take, any, literal, verify, try_map, le_u24/le_u32, seq, alt, repeat(0..), separated_foldl1 with their backtrack/cut/reset semantics and the must-consume assertion) are transcribed from the crate source and chronobox.rs is transcribed combinator by combinator; C07_cbw_fifo_eq proves that model equal to the recursive parser on every input, in debug and release configurations, and the differential runs the combinator-level model.')
+
+# translator plugins this property needs besides the board tables of tools/gen.py (none)
+CFG["gen_plugins"] = []
